@@ -149,6 +149,8 @@ func run(script []Action, w http.ResponseWriter) {
 		switch a.Op {
 		case "header":
 			w.Header().Set(a.Key, a.Val)
+		case "header-add":
+			w.Header().Add(a.Key, a.Val)
 		case "status":
 			w.WriteHeader(a.Code)
 		case "write":
@@ -311,15 +313,31 @@ func check(c Case) (o h.Outcome) {
 		// only the headers the script set itself: the recorder's content sniffing depends on
 		// whether WriteHeader preceded the first Write, which is an artefact of the recorder
 		for _, a := range c.Script {
-			if a.Op != "header" {
+			if a.Op != "header" && a.Op != "header-add" {
 				break // only headers set before the response is committed count (the recorder sniffs a Content-Type otherwise)
 			}
+			// (strict mode buffers WriteHeader, so a header set after it would reach the client too;
+			// the headers compared here are set before anything is written, in either mode, and are
+			// part of the response that "reaches the client": every value of them has to arrive)
+			k := http.CanonicalHeaderKey(a.Key)
 			if c.Strict {
-				// strict mode buffers WriteHeader, so a header set after it still reaches the
-				// client; the statement only promises status and body there
+				// what the leading header operations alone amount to must arrive, value by value
+				lead := http.Header{}
+				for _, b := range c.Script {
+					if b.Op == "header" {
+						lead.Set(b.Key, b.Val)
+					} else if b.Op == "header-add" {
+						lead.Add(b.Key, b.Val)
+					} else {
+						break
+					}
+				}
+				if !strings.HasPrefix(strings.Join(client.Result().Header[k], "|")+"|", strings.Join(lead[k], "|")+"|") {
+					o.Fail("passthrough-header:strict", "header %s: the handler set %v before writing anything, the client sees %v", k, lead[k], client.Result().Header[k])
+					return
+				}
 				continue
 			}
-			k := http.CanonicalHeaderKey(a.Key)
 			if strings.Join(client.Result().Header[k], "|") != strings.Join(ref.Result().Header[k], "|") {
 				o.Fail("passthrough-header", "header %s: client sees %v, the reference run gives %v", k, client.Result().Header[k], ref.Result().Header[k])
 				return
@@ -379,6 +397,8 @@ func dump(v any) string { b, _ := json.Marshal(v); return string(b) }
 var alphabet = []Action{
 	{Op: "header", Key: "Content-Type", Val: "application/json"},
 	{Op: "header", Key: "X-Tea", Val: "oolong"},
+	{Op: "header-add", Key: "Set-Cookie", Val: "a=1"},
+	{Op: "header-add", Key: "Set-Cookie", Val: "b=2"},
 	{Op: "status", Code: 200},
 	{Op: "status", Code: 201},
 	{Op: "status", Code: 418},
